@@ -122,19 +122,19 @@ Fixed == {
    good |-> <<"giver = fn() -> int { return 3 }", "flt: fn() -> int = giver">>],
   \* a slot of function type (list element, field, map value, variable) re-assigned with a function of another signature:
   \* no result where one is promised, another parameter count, another parameter type
-  [name |-> "fn_slot_index_noret", bad |-> FnDefs \o <<"fl: [fn(int) -> int...] = [dbl, dbl]", "k0 = 0", "fl[k0] = noret" \o M>>,
-                                   good |-> FnDefs \o <<"fl: [fn(int) -> int...] = [dbl, dbl]", "k0 = 0", "fl[k0] = dbl">>],
-  [name |-> "fn_slot_index_arity", bad |-> FnDefs \o <<"fl: [fn(int) -> int...] = [dbl, dbl]", "k0 = 0", "fl[k0] = two" \o M>>,
-                                   good |-> FnDefs \o <<"fl: [fn(int) -> int...] = [dbl, dbl]", "k0 = 0", "fl[k0] = dbl">>],
-  [name |-> "fn_slot_field_noret", bad |-> FnDefs \o StageCls \o <<"sg = Stage(dbl)", "sg.step = noret" \o M>>,
-                                   good |-> FnDefs \o StageCls \o <<"sg = Stage(dbl)", "sg.step = dbl">>],
-  [name |-> "fn_slot_field_param", bad |-> FnDefs \o StageCls \o <<"sg = Stage(dbl)", "sg.step = strfn" \o M>>,
-                                   good |-> FnDefs \o StageCls \o <<"sg = Stage(dbl)", "sg.step = dbl">>],
-  [name |-> "fn_slot_ctor_noret", bad |-> FnDefs \o StageCls \o <<"sg = Stage(noret)" \o M>>,
-                                  good |-> FnDefs \o StageCls \o <<"sg = Stage(dbl)">>],
-  [name |-> "fn_slot_map_noret", bad |-> FnDefs \o <<"fm = map[str, fn(int) -> int]{\"a\": dbl}", "fm[\"b\"] = noret" \o M>>,
-                                 good |-> FnDefs \o <<"fm = map[str, fn(int) -> int]{\"a\": dbl}", "fm[\"b\"] = dbl">>],
-  [name |-> "fn_slot_var_noret", bad |-> FnDefs \o <<"re = dbl", "re = noret" \o M>>, good |-> FnDefs \o <<"re = dbl", "re = dbl">>],
+  [name |-> "fn_slot_index_noret", bad |-> FnDefs \o <<"fl: [fn(int) -> int...] = [dbl, dbl]", "k0 = 0", "fl[k0] = noret" \o M, "rr = (fl[k0])(3) + 1">>,
+                                   good |-> FnDefs \o <<"fl: [fn(int) -> int...] = [dbl, dbl]", "k0 = 0", "fl[k0] = dbl", "rr = (fl[k0])(3) + 1">>],
+  [name |-> "fn_slot_index_arity", bad |-> FnDefs \o <<"fl: [fn(int) -> int...] = [dbl, dbl]", "k0 = 0", "fl[k0] = two" \o M, "rr = (fl[k0])(3) + 1">>,
+                                   good |-> FnDefs \o <<"fl: [fn(int) -> int...] = [dbl, dbl]", "k0 = 0", "fl[k0] = dbl", "rr = (fl[k0])(3) + 1">>],
+  [name |-> "fn_slot_field_noret", bad |-> FnDefs \o StageCls \o <<"sg = Stage(dbl)", "sg.step = noret" \o M, "rr = sg.step(3) + 1">>,
+                                   good |-> FnDefs \o StageCls \o <<"sg = Stage(dbl)", "sg.step = dbl", "rr = sg.step(3) + 1">>],
+  [name |-> "fn_slot_field_param", bad |-> FnDefs \o StageCls \o <<"sg = Stage(dbl)", "sg.step = strfn" \o M, "rr = sg.step(3) + 1">>,
+                                   good |-> FnDefs \o StageCls \o <<"sg = Stage(dbl)", "sg.step = dbl", "rr = sg.step(3) + 1">>],
+  [name |-> "fn_slot_ctor_noret", bad |-> FnDefs \o StageCls \o <<"sg = Stage(noret)" \o M, "rr = sg.step(3) + 1">>,
+                                  good |-> FnDefs \o StageCls \o <<"sg = Stage(dbl)", "rr = sg.step(3) + 1">>],
+  [name |-> "fn_slot_map_noret", bad |-> FnDefs \o <<"fm = map[str, fn(int) -> int]{\"a\": dbl}", "fm[\"b\"] = noret" \o M, "rr = (fm[\"b\"])(3) + 1">>,
+                                 good |-> FnDefs \o <<"fm = map[str, fn(int) -> int]{\"a\": dbl}", "fm[\"b\"] = dbl", "rr = (fm[\"b\"])(3) + 1">>],
+  [name |-> "fn_slot_var_noret", bad |-> FnDefs \o <<"re = dbl", "re = noret" \o M, "rr = re(3) + 1">>, good |-> FnDefs \o <<"re = dbl", "re = dbl", "rr = re(3) + 1">>],
   [name |-> "fn_slot_push_noret", bad |-> FnDefs \o <<"fl: [fn(int) -> int...] = [dbl]", "fl.push(noret)" \o M>>,
                                   good |-> FnDefs \o <<"fl: [fn(int) -> int...] = [dbl]", "fl.push(dbl)">>],
   \* `modify` (typed and untyped) of a captured variable with a value of another type
